@@ -24,6 +24,10 @@ type SyncClock struct {
 	RTPTimeUnit float64 // RTP时间单位，每个RTP时间的纳秒数
 
 	initOn time.Time // 初始化时间
+
+	// 最近一个包的 RTP 时间戳，展开成 64 位（RTP 时间戳只有 32 位，90kHz 下约 13 小时回绕一次）
+	extRTPTime int64
+	extOn      bool
 }
 
 // Init 初始化同步时钟
@@ -55,14 +59,25 @@ func (sc *SyncClock) RelativeNtpNow() int64 {
 	return int64(time.Now().Sub(sc.initOn))
 }
 
+// extend 把 32 位 RTP 时间戳相对上一个包展开成 64 位：回绕之后继续增长，而不是倒退 2^32。
+func (sc *SyncClock) extend(rtptime uint32) int64 {
+	if !sc.extOn {
+		sc.extOn = true
+		sc.extRTPTime = int64(rtptime)
+	} else {
+		sc.extRTPTime += int64(int32(rtptime - uint32(sc.extRTPTime)))
+	}
+	return sc.extRTPTime
+}
+
 // RelativeNtp .
 func (sc *SyncClock) RelativeNtp(rtptime uint32) int64 {
-	diff := int64(rtptime) - int64(sc.RTPTime)
+	diff := sc.extend(rtptime) - int64(sc.RTPTime)
 	return int64(float64(diff) * sc.RTPTimeUnit)
 }
 
 // AbsoluteNtp .
 func (sc *SyncClock) AbsoluteNtp(rtptime uint32) int64 {
-	diff := int64(rtptime) - int64(sc.RTPTime)
+	diff := sc.extend(rtptime) - int64(sc.RTPTime)
 	return sc.NTPTime + int64(float64(diff)*sc.RTPTimeUnit)
 }
